@@ -207,17 +207,22 @@ pub mod dom {
     pub static mut IDCODE: [u16; MAXN] = [0; MAXN];          // 0 = no id attribute; otherwise a code of the id string
     pub static mut PARENT: [u8; MAXN] = [255; MAXN];
     pub static mut TEXT: [u8; MAXN] = [0; MAXN];             // index into TEXTS (leaf text)
-    pub const TEXTS: [&str; 6] = ["", ".", "\u{2026}", "+", "x", "1"];
-    pub const NAMES: [&str; 8] = ["mi", "none", "mprescripts", "mmultiscripts", "mtext", "mrow", "mn", "mo"];
+    pub const TEXTS: [&str; 17] = ["", ".", "\u{2026}", "+", "x", "1", "-", "-1", "arc", "sin", "arcsin", "|", "||", "\u{2016}", "\u{2212}", "\u{2212}1", "?"];
+    pub const NAMES: [&str; 11] = ["mi", "none", "mprescripts", "mmultiscripts", "mtext", "mrow", "mn", "mo", "msub", "mfrac", "mphantom"];
     #[derive(Clone, Copy, PartialEq, Eq, Debug)] pub struct Element<'a> { pub id: u8, pub p: PhantomData<&'a ()> }
     #[derive(Clone, Copy, PartialEq, Eq, Debug)] pub enum ChildOfElement<'a> { Element(Element<'a>) }
     #[derive(Clone, Copy)] pub struct Document<'a>(pub PhantomData<&'a ()>);
+    impl<'a> From<Element<'a>> for ChildOfElement<'a> { fn from(e: Element<'a>) -> Self { ChildOfElement::Element(e) } }
+    pub fn is_leaf<'a>(e: Element<'a>) -> bool { let k = unsafe { KIND[e.id as usize] }; k == 0 || k == 1 || k == 4 || k == 6 || k == 7 }
     /// fixed-capacity vector that derefs to a slice (what `children()` returns, `replace_children` takes, and the parser's stack)
     pub struct KVec<T> { items: core::mem::MaybeUninit<[T; MAXC + 2]>, len: usize }
     impl<T> KVec<T> {
         pub fn new() -> Self { KVec { items: core::mem::MaybeUninit::uninit(), len: 0 } }
         pub fn with_capacity(_n: usize) -> Self { Self::new() }
         pub fn push(&mut self, t: T) { assert!(self.len < MAXC + 2, "model vector overflow"); unsafe { (self.items.as_mut_ptr() as *mut T).add(self.len).write(t); } self.len += 1; }
+        pub fn append(&mut self, other: &mut KVec<T>) { let mut i = 0; while i < other.len { let t = unsafe { (other.items.as_ptr() as *const T).add(i).read() }; self.push(t); i += 1; } other.len = 0; }
+        pub fn drain(&mut self, r: core::ops::Range<usize>) { assert!(r.start <= r.end && r.end <= self.len, "drain range out of bounds"); let k = r.end - r.start; let mut i = r.end;
+            while i < self.len { unsafe { let t = (self.items.as_ptr() as *const T).add(i).read(); (self.items.as_mut_ptr() as *mut T).add(i - k).write(t); } i += 1; } self.len -= k; }
         pub fn pop(&mut self) -> Option<T> { if self.len == 0 { None } else { self.len -= 1; Some(unsafe { (self.items.as_ptr() as *const T).add(self.len).read() }) } }
     }
     pub struct KIter<T> { v: KVec<T>, i: usize }
@@ -232,11 +237,29 @@ pub mod dom {
             unsafe { let n = NCH[self.id as usize] as usize; let mut i = 0; while i < n { v.push(ChildOfElement::Element(Element { id: CH[self.id as usize][i], p: PhantomData })); i += 1; } }
             v
         }
-        pub fn replace_children(&self, new: KVec<ChildOfElement<'a>>) {
-            unsafe { assert!(new.len() <= MAXC, "model child list overflow"); NCH[self.id as usize] = new.len() as u8; let mut i = 0; while i < new.len() { let ChildOfElement::Element(e) = new[i]; CH[self.id as usize][i] = e.id; PARENT[e.id as usize] = self.id; i += 1; } }
+        pub fn replace_children<I: IntoIterator<Item = C>, C: Into<ChildOfElement<'a>>>(&self, new: I) {
+            unsafe { let mut i = 0; for c in new { assert!(i < MAXC, "model child list overflow"); let ChildOfElement::Element(e) = c.into(); CH[self.id as usize][i] = e.id; PARENT[e.id as usize] = self.id; i += 1; } NCH[self.id as usize] = i as u8; }
         }
         pub fn append_child_id(&self, c: u8) { unsafe { let n = NCH[self.id as usize] as usize; CH[self.id as usize][n] = c; NCH[self.id as usize] = (n + 1) as u8; PARENT[c as usize] = self.id; } }
-        pub fn set_text(&self, t: &str) { let b = t.as_bytes(); let code = if b.is_empty() { 0 } else if b[0] == b'.' { 1 } else if b[0] == 0xE2 { 2 } else if b[0] == b'+' { 3 } else if b[0] == b'x' { 4 } else { 5 }; unsafe { TEXT[self.id as usize] = code; } }
+        /// leaf text is kept as an index into TEXTS (the strings the harnesses use); any other non-empty text becomes "?"
+        pub fn set_text(&self, t: &str) {
+            let code: u8 = match t { "" => 0, "." => 1, "\u{2026}" => 2, "+" => 3, "x" => 4, "1" => 5, "-" => 6, "-1" => 7, "arc" => 8, "sin" => 9, "arcsin" => 10,
+                "|" => 11, "||" => 12, "\u{2016}" => 13, "\u{2212}" => 14, "\u{2212}1" => 15, _ => 16 };
+            unsafe { TEXT[self.id as usize] = code; }
+        }
+        pub fn following_siblings(&self) -> KVec<ChildOfElement<'a>> {
+            let mut v = KVec::new();
+            unsafe { let p = PARENT[self.id as usize] as usize; if p != 255 { let n = NCH[p] as usize; let mut seen = false; let mut i = 0;
+                while i < n { if seen { v.push(ChildOfElement::Element(Element { id: CH[p][i], p: PhantomData })); } if CH[p][i] == self.id { seen = true; } i += 1; } } }
+            v
+        }
+        pub fn preceding_siblings(&self) -> KVec<ChildOfElement<'a>> {
+            let mut v = KVec::new();
+            unsafe { let p = PARENT[self.id as usize] as usize; if p != 255 { let n = NCH[p] as usize; let mut i = 0;
+                while i < n && CH[p][i] != self.id { v.push(ChildOfElement::Element(Element { id: CH[p][i], p: PhantomData })); i += 1; } } }
+            v
+        }
+        pub fn parent_id(&self) -> u8 { unsafe { PARENT[self.id as usize] } }
         pub fn remove_from_parent(&self) {
             unsafe {
                 let p = PARENT[self.id as usize] as usize;
@@ -255,12 +278,16 @@ pub mod dom {
     pub fn as_text<'a>(e: Element<'a>) -> &'static str { TEXTS[unsafe { TEXT[e.id as usize] } as usize] }
     pub fn name<'a>(e: &Element<'a>) -> &'static str { NAMES[unsafe { KIND[e.id as usize] } as usize] }
     pub fn as_element<'a>(c: ChildOfElement<'a>) -> Element<'a> { let ChildOfElement::Element(e) = c; e }
+    pub fn get_parent<'a>(e: Element<'a>) -> Element<'a> { let p = unsafe { PARENT[e.id as usize] }; assert!(p != 255, "get_parent of a detached node"); Element { id: p, p: PhantomData } }
+    pub fn set_leaf<'a>(e: Element<'a>, code: u8) { unsafe { TEXT[e.id as usize] = code; } }
+    pub fn kind_of_name(nm: &str) -> u8 { match nm { "mi" => 0, "none" => 1, "mprescripts" => 2, "mmultiscripts" => 3, "mtext" => 4, "mrow" => 5, "mn" => 6, "mo" => 7, "msub" => 8, "mfrac" => 9, "mphantom" => 10, _ => 0 } }
+    pub fn set_mathml_name<'a>(e: Element<'a>, nm: &str) { unsafe { KIND[e.id as usize] = kind_of_name(nm); } }
     pub fn create_mathml_element<'a>(_doc: &Document<'a>, nm: &str) -> Element<'a> {
-        let kind = if nm.len() == 5 { 4 } else if nm.len() == 4 { 5 } else { 0 };      // "mtext" / "mrow"
+        let kind = kind_of_name(nm);
         let e = new_node(kind); Element { id: e.id, p: PhantomData }
     }
 }
-use dom::{Element, ChildOfElement, Document, name, as_element, as_text, create_mathml_element};
+use dom::{Element, ChildOfElement, Document, name, as_element, as_text, create_mathml_element, is_leaf, set_mathml_name, get_parent};
 #[allow(unused_imports)] use dom::KVec as Vec;
 '''
 
